@@ -274,7 +274,7 @@ fn keep_cfg(ops: &[String]) -> usize {
 // E2 timing: dump + flush every tick, generous budget, tick lengths around resend_time
 // ---------------------------------------------------------------------------------------------
 fn script_timing(rng: &mut Rng, tier: Tier, ex: &mut dyn FnMut(&str) -> String) {
-    let resend = rng.pick(&[50_000u64, 100_000, 300_000]);
+    let resend = rng.pick(&[50_000u64, 100_000, 300_000, 2_500, 100_700, 999]);
     let kind = rng.pick(&["RO", "RU"]);
     let ch = vec![Chan { id: 1, kind, max_mem: 5 * 1024 * 1024, resend_us: resend }, Chan { id: 0, kind: "U", max_mem: 100_000, resend_us: 0 }];
     ex(&cfg_line(10_000_000, &ch, &ch));
@@ -295,7 +295,7 @@ fn script_timing(rng: &mut Rng, tier: Tier, ex: &mut dyn FnMut(&str) -> String) 
         }
         let dt = match mode {
             0 => resend,                                  // exactly resend_time
-            1 => rng.pick(&[resend - 1, resend, resend + 1]),
+            1 => rng.pick(&[resend - 1, resend, resend + 1, resend - resend % 1000, resend - resend % 1000 + 200]),
             2 => rng.pick(&[resend / 2, resend / 3, resend]), // shorter ticks
             _ => rng.range(1, 2 * resend),                // irregular
         };
@@ -709,7 +709,8 @@ fn oracle_bulk(ops: &[String], outs: &[String]) -> Option<OracleFail> {
 // remaining budget and the next multiple of 1200; lossless delivery
 // ---------------------------------------------------------------------------------------------
 fn script_unrel(rng: &mut Rng, _tier: Tier, ex: &mut dyn FnMut(&str) -> String) {
-    let u = Chan { id: 0, kind: "U", max_mem: 200_000, resend_us: 0 };
+    let umem = rng.pick(&[200_000usize, 2400, 3600, 4800, 6000, 7200, 9600]);
+    let u = Chan { id: 0, kind: "U", max_mem: umem, resend_us: 0 };
     let r = Chan { id: 1, kind: "RO", max_mem: 200_000, resend_us: 100_000 };
     let order = if rng.chance(1, 2) { vec![u.clone(), r.clone()] } else { vec![r.clone(), u.clone()] };
     let budget = rng.pick(&[2500u64, 3000, 3700, 4900, 6000, 7300, 10_000]);
@@ -960,7 +961,18 @@ fn script_hostile(rng: &mut Rng, tier: Tier, ex: &mut dyn FnMut(&str) -> String)
 // ---------------------------------------------------------------------------------------------
 fn script_multi(rng: &mut Rng, tier: Tier, ex: &mut dyn FnMut(&str) -> String) {
     let sc = default_chans();
-    let cc = default_chans();
+    let mut cc = default_chans();
+    if rng.chance(1, 3) {
+        // the two directions need not agree on what a channel id means: the client sends on ids whose kind
+        // differs from the kind the server uses for the same id
+        let rot = rng.range(1, 2) as usize;
+        let kinds: Vec<(&'static str, u64)> = cc.iter().map(|c| (c.kind, c.resend_us)).collect();
+        for (i, c) in cc.iter_mut().enumerate() {
+            let (k, r) = kinds[(i + rot) % 3];
+            c.kind = k;
+            c.resend_us = r;
+        }
+    }
     let budget = rng.pick(&[60_000u64, 12_000]);
     ex(&cfg_line(budget, &sc, &cc));
     let n = rng.range(2, 5);
@@ -1406,6 +1418,143 @@ fn oracle_sweep_acks(ops: &[String], outs: &[String]) -> Option<OracleFail> {
     None
 }
 
+
+// ---------------------------------------------------------------------------------------------
+// E2 tight receive budgets: a few messages whose reservations nearly fill the receiver, newest first
+// ---------------------------------------------------------------------------------------------
+fn script_tight(rng: &mut Rng, _tier: Tier, ex: &mut dyn FnMut(&str) -> String) {
+    let kind = rng.pick(&["RO", "RO", "RU"]);
+    let mm = rng.pick(&[2400usize, 3600, 4000, 4800, 5000, 6000]);
+    let ch = vec![Chan { id: 2, kind, max_mem: mm, resend_us: 100_000 }];
+    ex(&cfg_line(60_000, &ch, &ch));
+    ex("cli 0");
+    ex("add 100");
+    ex("setc 0");
+    if rng.chance(1, 2) {
+        // targeted: a sliced message and a later small one that fit the sender's budget together while the
+        // receiver's slice reservation (n x 1200) does not fit next to the buffered small message
+        let big = rng.range(1201, (mm - 1) as u64) as usize;
+        let n = (big + 1199) / 1200;
+        let room = (mm - big).min(1200).max(1);
+        let lo = if n * 1200 < mm && rng.chance(2, 3) { (mm - n * 1200 + 1).min(room) } else { 1 };
+        let small = rng.range(lo as u64, room as u64) as usize;
+        for len in [big, small.max(1)] {
+            let m = rng.payload(len);
+            ex(&format!("send c0 2 {}", hex(&m)));
+        }
+    } else {
+        let n = rng.range(2, 4);
+        for _ in 0..n {
+            let len = match rng.below(4) {
+                0 => rng.range(1, 1200) as usize,
+                1 => rng.pick(&[1201usize, 2000, 2400, 2500]),
+                2 => rng.pick(&[800usize, 1000, 1200]),
+                _ => rng.range(1201, 3600) as usize,
+            };
+            let m = rng.payload(len);
+            ex(&format!("send c0 2 {}", hex(&m)));
+        }
+    }
+    ex("upd c0 1000");
+    let k = pkts_count(&ex("flush c0"));
+    let mut order: Vec<usize> = (0..k).collect();
+    match rng.below(3) {
+        0 => order.reverse(),
+        1 => {
+            for i in (1..order.len()).rev() {
+                let j = rng.below(i as u64 + 1) as usize;
+                order.swap(i, j);
+            }
+        }
+        _ => {}
+    }
+    let lose = rng.below(k.max(1) as u64) as usize;
+    for (j, i) in order.iter().enumerate() {
+        if j == lose && rng.chance(1, 2) {
+            continue;
+        }
+        ex(&format!("dlv s100 c0 {}", i));
+        if rng.chance(1, 3) {
+            drain(ex, "s100", 2, 2);
+        }
+    }
+    ex("dump s100");
+    ex("stat s100");
+    // heal
+    let mut next = k;
+    let mut next_s = 0usize;
+    if rng.chance(3, 4) {
+        // the acks arrive before anything is due for a resend: what was acknowledged is never sent again
+        let k = pkts_count(&ex("flush s100"));
+        for i in 0..k {
+            ex(&format!("dlv c0 s100 {}", i));
+        }
+        next_s = k;
+    }
+    for _ in 0..14 {
+        ex("upd c0 101000");
+        ex("upd srv 101000");
+        let k = pkts_count(&ex("flush c0"));
+        for i in 0..k {
+            ex(&format!("dlv s100 c0 {}", next + i));
+        }
+        next += k;
+        drain(ex, "s100", 2, 100);
+        let k = pkts_count(&ex("flush s100"));
+        for i in 0..k {
+            ex(&format!("dlv c0 s100 {}", next_s + i));
+        }
+        next_s += k;
+    }
+    ex("stat c0");
+    ex("stat s100");
+    ex("note healed");
+    ex("upd c0 3100000");
+    ex("upd srv 3100000");
+    ex("dump c0");
+    ex("dump s100");
+    ex("note quiescent");
+}
+
+// ---------------------------------------------------------------------------------------------
+// bounded exhaustive sweep over slice packets: kind x id x index x count x payload length x prior state
+// ---------------------------------------------------------------------------------------------
+const SWEEP_SLICES_N: usize = 2 * 2 * 5 * 4 * 6 * 3;
+
+fn sweep_slices_ops(mut case: usize) -> Vec<String> {
+    let mut take = |n: usize| -> usize {
+        let v = case % n;
+        case /= n;
+        v
+    };
+    let ty = [2u8, 3][take(2)];
+    let id = [0u64, 1][take(2)];
+    let idx = [0u64, 1, 2, 3, 1_000_000][take(5)];
+    let n = [1u64, 2, 3, 4][take(4)];
+    let len = [0usize, 1, 1199, 1200, 1201, 600][take(6)];
+    let prior = take(3);
+    let ch = if ty == 2 { 2 } else { 0 };
+    let mut ops = vec![cfg_line(60_000, &default_chans(), &default_chans()), "cli 0".to_string(), "add 100".to_string(), "cli 1".to_string(), "add 101".to_string()];
+    let full = vec![9u8; 1200];
+    match prior {
+        1 => ops.push(format!("raw s100 {}", slice_pkt(ty, 50, ch, 0, 0, 2, &full))),
+        2 => {
+            ops.push(format!("raw s100 {}", slice_pkt(ty, 50, ch, 0, 1, 2, &[7u8; 10])));
+            ops.push(format!("raw s100 {}", slice_pkt(ty, 51, ch, 1, 0, 3, &full)));
+        }
+        _ => {}
+    }
+    ops.push(format!("raw s100 {}", slice_pkt(ty, 7, ch, id, idx, n, &vec![5u8; len])));
+    ops.push("stat s100".into());
+    ops.push("dump s100".into());
+    ops.push(format!("recv s100 {}", ch));
+    ops.push("upd srv 3100000".into());
+    ops.push("flush s100".into());
+    ops.push("dump s100".into());
+    ops.push("stat s101".into());
+    ops
+}
+
 // ---------------------------------------------------------------------------------------------
 // E1: renet wire format
 // ---------------------------------------------------------------------------------------------
@@ -1568,6 +1717,19 @@ fn script_wire(rng: &mut Rng, _tier: Tier, ex: &mut dyn FnMut(&str) -> String) {
     }
 }
 
+/// C08 on the wire: an ack packet decodes to exactly the ranges that were encoded (an endpoint
+/// never acknowledges, through its encoding, a sequence number that is not in its pending list).
+fn oracle_c16_acks(ops: &[String], outs: &[String]) -> Option<OracleFail> {
+    for i in 1..ops.len() {
+        if let (Some(t), Some(h)) = (ops[i - 1].strip_prefix("enc "), ops[i].strip_prefix("dec ")) {
+            if t.starts_with("AK ") && outs[i - 1] == h && outs[i] != t && term_wf(t) {
+                return fail(i, "ack-encoding-differs", format!("an ack packet for ranges `{}` decodes to `{}`", &t[..t.len().min(80)], &outs[i][..outs[i].len().min(80)]));
+            }
+        }
+    }
+    None
+}
+
 /// is the term a value the library itself can build (the domain C16 quantifies over)?
 fn term_wf(t: &str) -> bool {
     let v: Vec<&str> = t.split(' ').collect();
@@ -1695,13 +1857,33 @@ pub fn profiles() -> Vec<Profile> {
     },
     Profile {
         name: "rn-unrel",
-        props: &["C03", "C14"],
+        props: &["C03", "C14", "C09"],
         cases: |t| if t == Tier::Quick { 200 } else { 3000 },
         new_world,
         script: script_unrel,
         nontrivial: |t| t.outs.iter().any(|o| o.starts_with("msg ")),
         keep: keep_cfg,
         fixed: None,
+    },
+    Profile {
+        name: "rn-tight",
+        props: &["C01", "C02", "C09", "C06"],
+        cases: |t| if t == Tier::Quick { 300 } else { 5000 },
+        new_world,
+        script: script_tight,
+        nontrivial: |t| t.outs.iter().any(|o| o.starts_with("msg ") || o.starts_with("disconnected")),
+        keep: keep_cfg,
+        fixed: None,
+    },
+    Profile {
+        name: "rn-sweep-slices",
+        props: &["C06", "C09"],
+        cases: |_| SWEEP_SLICES_N,
+        new_world,
+        script: script_none,
+        nontrivial: |_| true,
+        keep: |_| 5,
+        fixed: Some(sweep_slices_ops),
     },
     Profile {
         name: "rn-acks",
@@ -1735,7 +1917,7 @@ pub fn profiles() -> Vec<Profile> {
     },
     Profile {
         name: "rn-wire",
-        props: &["C16", "C13"],
+        props: &["C16", "C13", "C08"],
         cases: |t| if t == Tier::Quick { 600 } else { 20000 },
         new_world,
         script: script_wire,
@@ -2147,6 +2329,91 @@ fn oracle_c06(ops: &[String], outs: &[String]) -> Option<OracleFail> {
                     return fail(ops.len() - 1, "bystander-disconnected", format!("{} (never fed hostile input) ended as {}", who, st));
                 }
             }
+        }
+    }
+    None
+}
+
+/// C09 on the unreliable receive side (lossless, in-order profile `rn-unrel`): a message whose cost
+/// (length for small, slices x 1200 while reassembling, then its length) fits the receive budget next
+/// to what is still buffered must be obtained; the receiver may drop only what does not fit.
+fn oracle_unrel_budget(ops: &[String], outs: &[String]) -> Option<OracleFail> {
+    let mut cfg = Cfg::default();
+    let mut hist: Vec<String> = vec![];
+    let mut buffered: std::collections::VecDeque<Vec<u8>> = Default::default(); // expected queue at the receiver (channel 0)
+    let mut partial: HashMap<u64, (usize, Vec<Option<Vec<u8>>>)> = HashMap::new();
+    let mut mem: usize = 0;
+    let mut sender_alive = true;
+    for (i, (op, out)) in ops.iter().zip(outs.iter()).enumerate() {
+        let t: Vec<&str> = op.split(' ').collect();
+        match t[0] {
+            "cfg" => {
+                if let Some(c) = parse_cfg(op) {
+                    cfg = c
+                }
+            }
+            "flush" if t.len() == 2 && t[1] == "c0" => {
+                for p in flush_packets(out) {
+                    hist.push(p.to_string());
+                }
+            }
+            "stat" if t.len() == 2 && out.starts_with("disconnected") => sender_alive = false,
+            "dlv" if t.len() == 4 && t[1] == "s100" && t[2] == "c0" && out == "ok" => {
+                let max = cfg.client.iter().find(|c| c.0 == 0).map(|c| c.2).unwrap_or(0);
+                let k: usize = t[3].parse().unwrap_or(usize::MAX);
+                match hist.get(k).and_then(|p| decode(p)) {
+                    Some(WPacket::SmallUnreliable { channel_id: 0, messages, .. }) => {
+                        for m in messages {
+                            if mem + m.len() <= max {
+                                mem += m.len();
+                                buffered.push_back(m.to_vec());
+                            }
+                        }
+                    }
+                    Some(WPacket::UnreliableSlice { channel_id: 0, slice, .. }) => {
+                        let n = slice.num_slices;
+                        if !partial.contains_key(&slice.message_id) {
+                            if mem + n * 1200 > max {
+                                continue;
+                            }
+                            mem += n * 1200;
+                            partial.insert(slice.message_id, (n, vec![None; n]));
+                        }
+                        let done = {
+                            let e = partial.get_mut(&slice.message_id).unwrap();
+                            if slice.slice_index < e.0 {
+                                e.1[slice.slice_index] = Some(slice.payload.to_vec());
+                            }
+                            e.1.iter().all(|x| x.is_some())
+                        };
+                        if done {
+                            let (n, parts) = partial.remove(&slice.message_id).unwrap();
+                            let m: Vec<u8> = parts.into_iter().flat_map(|x| x.unwrap()).collect();
+                            mem = mem - n * 1200 + m.len();
+                            buffered.push_back(m);
+                        }
+                    }
+                    _ => {}
+                }
+            }
+            "recv" if t.len() == 3 && t[1] == "s100" && t[2] == "0" && sender_alive => {
+                let want = buffered.pop_front();
+                match (&want, out.strip_prefix("msg ")) {
+                    (Some(w), Some(h)) => {
+                        mem -= w.len();
+                        if hex(w) != h {
+                            return fail(i, "unreliable-wrong-message", "the unreliable channel yielded a different message than the next one that fitted its budget".to_string());
+                        }
+                    }
+                    (Some(w), None) => {
+                        return fail(i, "in-budget-message-dropped", format!("an unreliable message of {} bytes that fitted the receive budget was not obtained", w.len()));
+                    }
+                    (None, Some(_)) => return fail(i, "unreliable-unexpected-message", "the unreliable channel yielded a message the budget rule says was dropped".to_string()),
+                    (None, None) => {}
+                }
+            }
+            "raw" | "dlvm" | "upd" if t[0] != "upd" => return None,
+            _ => {}
         }
     }
     None
@@ -2628,17 +2895,20 @@ fn oracle_c08(ops: &[String], outs: &[String]) -> Option<OracleFail> {
 
 pub fn oracles() -> Vec<Oracle> {
     vec![
-        Oracle { prop: "C01", name: "ordered-prefix", engines: &["rn-pair", "rn-multi", "rn-timing", "rn-long", "rn-acks"], check: oracle_c01 },
-        Oracle { prop: "C02", name: "unordered-once", engines: &["rn-pair", "rn-multi", "rn-timing", "rn-long", "rn-acks", "rn-regress"], check: oracle_c02 },
+        Oracle { prop: "C01", name: "ordered-prefix", engines: &["rn-pair", "rn-multi", "rn-timing", "rn-long", "rn-acks", "rn-tight"], check: oracle_c01 },
+        Oracle { prop: "C02", name: "unordered-once", engines: &["rn-pair", "rn-multi", "rn-timing", "rn-long", "rn-acks", "rn-tight", "rn-regress"], check: oracle_c02 },
         Oracle { prop: "C03", name: "integrity", engines: &["rn-pair", "rn-unrel"], check: oracle_c03 },
         Oracle { prop: "C02", name: "bulk", engines: &["rn-huge"], check: oracle_bulk },
         Oracle { prop: "C01", name: "bulk", engines: &["rn-huge"], check: oracle_bulk },
         Oracle { prop: "C16", name: "roundtrip", engines: &["rn-wire"], check: oracle_c16 },
+        Oracle { prop: "C08", name: "ack-encoding-roundtrip", engines: &["rn-wire"], check: oracle_c16_acks },
         Oracle { prop: "C16", name: "acks-are-the-set", engines: &["rn-sweep-acks"], check: oracle_sweep_acks },
         Oracle { prop: "C08", name: "acks-are-the-set", engines: &["rn-sweep-acks"], check: oracle_sweep_acks },
         Oracle { prop: "C06", name: "no-panic-bounded", engines: &["rn-"], check: oracle_c06 },
         Oracle { prop: "C09", name: "query-api", engines: &["rn-pair"], check: oracle_cansend },
-        Oracle { prop: "C09", name: "accounting", engines: &["rn-pair", "rn-hostile", "rn-regress", "rn-long", "rn-timing", "rn-acks"], check: oracle_c09 },
+        Oracle { prop: "C09", name: "unreliable-in-budget", engines: &["rn-unrel"], check: oracle_unrel_budget },
+        Oracle { prop: "C03", name: "unreliable-in-budget", engines: &["rn-unrel"], check: oracle_unrel_budget },
+        Oracle { prop: "C09", name: "accounting", engines: &["rn-pair", "rn-hostile", "rn-regress", "rn-long", "rn-timing", "rn-acks", "rn-tight", "rn-sweep-slices"], check: oracle_c09 },
         Oracle { prop: "C12", name: "finality-events", engines: &["rn-api", "rn-regress", "rn-hostile"], check: oracle_c12 },
         Oracle { prop: "C13", name: "packet-size", engines: &["rn-pair", "rn-regress", "rn-multi", "rn-hostile", "rn-long", "rn-timing", "rn-acks"], check: oracle_c13 },
         Oracle { prop: "C14", name: "budget", engines: &["rn-pair", "rn-multi", "rn-unrel", "rn-timing"], check: oracle_c14 },
